@@ -489,18 +489,51 @@ def _all_conc(*xs):
     return not any(is_symbolic(x) for x in xs)
 
 
-def _charclass(en, s, ascii_re, upred, name):
-    """s.isX(): non-empty and every char in class.  Exact on ASCII."""
+def char_at(s, i):
+    return z3.SubString(s, i, z3.IntVal(1)) if not isinstance(i, int) else z3.SubString(s, z3.IntVal(i), z3.IntVal(1))
+
+
+def all_chars(s, cls):
+    """forall i in [0,|s|): cls(code(s[i]))  — character-wise (E-matching friendly) form.
+    Distributes over concatenation (exact: a char of a++b is a char of a or of b)."""
+    if z3.is_app_of(s, z3.Z3_OP_SEQ_CONCAT):
+        return z3.And(*[all_chars(ch, cls) for ch in s.children()])
+    if z3.is_string_value(s):
+        v = s.as_string()
+        return z3.And(*[cls(z3.IntVal(ord(ch))) for ch in v]) if v else z3.BoolVal(True)
+    if z3.is_app_of(s, z3.Z3_OP_STR_FROM_CODE):
+        x = s.arg(0)
+        return z3.Implies(z3.Length(s) == 1, cls(x))
+    i = z3.FreshInt("ci")
+    ch = char_at(s, i)
+    return z3.ForAll([i], z3.Implies(z3.And(0 <= i, i < z3.Length(s)), cls(z3.StrToCode(ch))), patterns=[ch])
+
+
+def cls_alpha(c):
+    return z3.If(c <= 127, z3.Or(z3.And(c >= 65, c <= 90), z3.And(c >= 97, c <= 122)), U_isalpha(c))
+
+
+def cls_digit(c):
+    return z3.If(c <= 127, z3.And(c >= 48, c <= 57), U_isdigit(c))
+
+
+def cls_alnum(c):
+    return z3.Or(cls_alpha(c), cls_digit(c))
+
+
+def cls_space(c):
+    return z3.If(c <= 127, z3.Or(c == 32, z3.And(c >= 9, c <= 13), z3.And(c >= 28, c <= 31)), U_isspace(c))
+
+
+def _charclass(en, s, cls, name):
+    """s.isX(): non-empty and every char in class.  Exact on ASCII, abstract beyond."""
     if _all_conc(s):
         return getattr(s, name)()
     s = lift(s)
-    ascii_only = z3.InRe(s, z3.Star(z3.Range(chr(0), chr(127))))
     n = simp_int(z3.Length(s))
-    if L.is_conc_int(n) and n == 1 or z3.is_app_of(s, z3.Z3_OP_SEQ_EXTRACT) and _unit_len(s):
-        code = z3.StrToCode(s)
-        return z3.If(code <= 127, z3.InRe(s, ascii_re), upred(code))
-    u = z3.Function("U_" + name + "_str", z3.StringSort(), z3.BoolSort())
-    return z3.If(ascii_only, z3.InRe(s, z3.Plus(ascii_re)), u(s))
+    if (L.is_conc_int(n) and n == 1) or (z3.is_app_of(s, z3.Z3_OP_SEQ_EXTRACT) and _unit_len(s)):
+        return z3.And(z3.Length(s) == 1, cls(z3.StrToCode(s)))
+    return z3.And(z3.Length(s) > 0, all_chars(s, cls))
 
 
 def _unit_len(s):
@@ -512,21 +545,19 @@ def _unit_len(s):
 
 
 def s_isalpha(en, s):
-    return _charclass(en, s, ASCII_LETTER, U_isalpha, "isalpha")
+    return _charclass(en, s, cls_alpha, "isalpha")
 
 
 def s_isdigit(en, s):
-    return _charclass(en, s, ASCII_DIGIT, U_isdigit, "isdigit")
+    return _charclass(en, s, cls_digit, "isdigit")
 
 
 def s_isalnum(en, s):
-    return _charclass(
-        en, s, z3.Union(ASCII_LETTER, ASCII_DIGIT), lambda c: z3.Or(U_isalpha(c), U_isdigit(c)), "isalnum"
-    )
+    return _charclass(en, s, cls_alnum, "isalnum")
 
 
 def s_isspace(en, s):
-    return _charclass(en, s, ASCII_WS, U_isspace, "isspace")
+    return _charclass(en, s, cls_space, "isspace")
 
 
 U_lower = z3.Function("U_lower", z3.StringSort(), z3.StringSort())
@@ -537,17 +568,18 @@ U_strip = z3.Function("U_strip", z3.StringSort(), z3.StringSort())
 def s_lower(en, s):
     if _all_conc(s):
         return s.lower()
+    s = lift(s)
     r = U_lower(s)
-    # facts used by proofs (exact on ASCII): length preserved, per-character mapping
-    ascii_only = z3.InRe(s, z3.Star(z3.Range(chr(0), chr(127))))
-    i = z3.FreshInt("i")
-    ci = z3.StrToCode(z3.SubString(s, i, 1))
-    ri = z3.StrToCode(z3.SubString(r, i, 1))
+    # facts (exact for ASCII characters): per-character mapping; length preserved when all ASCII
+    i = z3.FreshInt("ci")
+    ci = z3.StrToCode(char_at(s, i))
+    ri = z3.StrToCode(char_at(r, i))
+    ascii_only = all_chars(s, lambda c: c <= 127)
     en.pc.append(z3.Implies(ascii_only, z3.Length(r) == z3.Length(s)))
     en.pc.append(z3.Implies(ascii_only, z3.ForAll(
         [i], z3.Implies(z3.And(0 <= i, i < z3.Length(s)),
                         ri == z3.If(z3.And(ci >= 65, ci <= 90), ci + 32, ci)),
-        patterns=[z3.SubString(r, i, 1)])))
+        patterns=[char_at(r, i)])))
     return r
 
 
